@@ -21,7 +21,11 @@ code; the quick tier samples 3 000 grids of those extra shapes), 3x3 over 4 code
 random-elevation forests (long chains), a snake through every cell (longest possible chain), uniformly random
 codes, planted 2-cycles and longer cycles, off-grid exits, invalid and negative codes. Fields: none (unit
 default), uniform, small positive integers, random positive floats, with zeros and negatives, containing the
-no-data value; no-data -9999, -1, 0, NaN; integer and float grids (uint8/int16/int32/int64/float flow directions). Cell limit:
+no-data value; no-data -9999, -1, 0, NaN; field grids in narrow dtypes
+(int8/uint8/int16/uint16/int32/float32) with values whose upstream sums leave the dtype's range or 2**24; on 40 % of the
+grids (every other exhaustive grid) the field grid — the flow-direction grid for the default unit field — declares finite
+mindata/maxdata exactly around its values with the no-data value outside them (sums and no-data must not be clipped);
+integer and float grids (uint8/int16/int32/int64/float flow directions). Cell limit:
 default, n, n-1, longest chain -1/0/+1, 1, 2, random; malformed stream: limit 0/-2/-7, zero rows, zero columns.
 A case is non-trivial when the grid is acyclic, run with the default limit, and has a cell that drains
 into another cell.
@@ -188,7 +192,29 @@ def gen_field(rng, n, kind, nodata):
     raise ValueError(kind)
 
 
-FIELD_KINDS = ["unit", "uniform", "posint", "distinct", "posfloat", "signed", "withnodata"]
+NARROW = {"int8": (-128, 127), "uint8": (0, 255), "int16": (-32768, 32767), "uint16": (0, 65535),
+          "int32": (-2 ** 31, 2 ** 31 - 1), "float32": None}
+
+
+def gen_narrow(rng, n):
+    """field stored in a dtype narrower than float64, with values whose upstream sums leave the range of that
+    dtype (integers) or its 24-bit significand (float32) as soon as two or three cells are summed -> (field, dtype, nodata)"""
+    dt = rng.choice(list(NARROW))
+    if dt == "float32":
+        pool = [16777216.0, 1.0, 3.0, 16777215.0, 0.5, 33554432.0, 5.0]
+        field = [rng.choice(pool) for _ in range(n)]
+        return field, dt, rng.choice([-1.0, -9999.0, float("nan")])
+    lo, hi = NARROW[dt]
+    if rng.random() < 0.4:
+        v = float(rng.choice([hi // 2 + 1, hi // 3, hi, 1000 if hi >= 1000 else 100]))
+        field = [v] * n
+    else:
+        field = [float(rng.randint(max(hi // 4, 1), hi)) for _ in range(n)]
+    nd = float(rng.choice([-1, lo] if lo < 0 else [0, hi]))
+    return field, dt, nd
+
+
+FIELD_KINDS = ["unit", "uniform", "posint", "distinct", "posfloat", "signed", "withnodata", "narrow"]
 
 
 def is_uniform(field):
@@ -243,8 +269,27 @@ class Runner:
         return (n if cap is None or cap == -1 else max(int(cap), 1)) + 1
 
     # -- one call through the public wrapper
+    def set_bounds(self, grid, vals, nd):
+        """declare finite mindata/maxdata exactly around the values the grid holds (so the data are not changed)
+        and move the no-data value outside them when the dtype can represent such a value"""
+        fin = [v for v in vals if v == v and abs(v) != float("inf")]
+        if not fin:
+            return
+        lo, hi = min(fin), max(fin)
+        grid.mindata = lo
+        grid.maxdata = hi
+        if nd == nd and lo <= nd <= hi:
+            for cand in (lo - 1, hi + 1, lo - 9999, hi + 9999):
+                try:
+                    v = grid.dtype(cand)
+                except (OverflowError, ValueError):
+                    continue
+                if float(v) == cand:
+                    grid.nodata = cand
+                    return
+
     def wrapper_case(self, nrows, ncols, fd, field, nodata, cap, fd_dtype="int64", f_dtype="float64",
-                     tag="", origin="gen"):
+                     tag="", origin="gen", bounds=False):
         np, G, ctx = self.np, self.G, self.ctx
         n = nrows * ncols
         fdg = G.Grid("fd", ncols=ncols, nrows=nrows, dtype=getattr(np, fd_dtype), nodata=nodata if field is None else 0)
@@ -255,14 +300,23 @@ class Runner:
         if field is not None:
             fg = G.Grid("f", ncols=ncols, nrows=nrows, dtype=getattr(np, f_dtype), nodata=nodata)
             fg.data = np.array(field, dtype=np.float64).reshape(nrows, ncols)
+            fvals = [float(v) for v in fg.data.ravel()]
+            if bounds:
+                self.set_bounds(fg, fvals, float(fg.nodata))
             f_before = fg.data.copy()
             fvals = [float(v) for v in fg.data.ravel()]
             nd = float(fg.nodata)
         else:
             fvals = [1.0] * n
+            if bounds:
+                # the default unit field is a clone of the flow-direction grid: it inherits these bounds
+                self.set_bounds(fdg, [float(v) for v in fd_seen], float(fdg.nodata))
+                fd_seen = [int(v) for v in fdg.data.ravel()]
+                fd_before = fdg.data.copy()
             nd = float(fdg.nodata)
         case = {"nrows": nrows, "ncols": ncols, "flowdir": fd_seen, "field": None if field is None else fvals,
-                "nodata": nd if nd == nd else "nan", "cap": cap, "fd_dtype": fd_dtype, "f_dtype": f_dtype, "via": "wrapper"}
+                "nodata": nd if nd == nd else "nan", "cap": cap, "fd_dtype": fd_dtype, "f_dtype": f_dtype, "via": "wrapper",
+                "bounds": bool(bounds)}
         try:
             kw = {} if cap is None else {"max_accumulated_cells": cap}
             res = G.accumulate(fdg, fg, nprint=NPRINT, **kw)
@@ -320,8 +374,9 @@ class Runner:
         uni = is_uniform(None if unit else fvals)
         fk = "unit" if unit else ("uniform_field" if uni else "nonuniform_field")
         capk = "default" if default_cap else ("cap<1" if cap < 1 else "cap>=n" if cap >= n else "cap<n")
-        ctx.count(("w", nrows, ncols, tuple(fd), None if unit else tuple(fvals), C.f2h(nd), cap, case["fd_dtype"], case["f_dtype"]),
-                  nontrivial, f"wrapper/{tag}/{fk}/{capk}/{'acyclic' if fl.acyclic else 'cyclic'}",
+        ctx.count(("w", nrows, ncols, tuple(fd), None if unit else tuple(fvals), C.f2h(nd), cap, case["fd_dtype"], case["f_dtype"], case.get("bounds")),
+                  nontrivial, f"wrapper/{tag}/{fk}/{capk}/{'acyclic' if fl.acyclic else 'cyclic'}"
+                  + ("/bounded" if case.get("bounds") else "") + ("/narrow" if case["f_dtype"] in NARROW else ""),
                   sample={"case": case, "reply": impl[1] if impl[0] == "err" else impl[1][:12]} if origin == "gen" and nontrivial and n >= 4 else None)
         valid_cap = default_cap or cap >= 1
         if impl[0] == "err":
@@ -474,7 +529,8 @@ def _body(ctx, rng):
             R.kernel_case(case["nrows"], case["ncols"], case["flowdir"], case["field"], nd, cap, case["acc0"], tag="corpus")
         elif case.get("via", "wrapper") == "wrapper":
             R.wrapper_case(case["nrows"], case["ncols"], case["flowdir"], case.get("field"), nd, cap,
-                           case.get("fd_dtype", "int64"), case.get("f_dtype", "float64"), tag="corpus", origin="corpus")
+                           case.get("fd_dtype", "int64"), case.get("f_dtype", "float64"), tag="corpus", origin="corpus",
+                           bounds=case.get("bounds", False))
 
     # ---- exhaustive small grids
     shapes = [(1, 1), (1, 2), (2, 1), (2, 2)]
@@ -492,7 +548,8 @@ def _body(ctx, rng):
                 if big and (gi + ki) % 3 != 0:
                     continue                     # 2x3 / 3x2: one field kind per grid, rotating
                 nd = -1.0 if kind == "unit" else -9999.0
-                R.wrapper_case(nrows, ncols, fd, gen_field(rng, n, kind, nd), nd, None, tag=f"exh{nrows}x{ncols}")
+                R.wrapper_case(nrows, ncols, fd, gen_field(rng, n, kind, nd), nd, None, tag=f"exh{nrows}x{ncols}",
+                               bounds=(gi % 2 == 1))
         R.flush()
     if not ctx.thorough:
         for _ in range(3000):
@@ -500,7 +557,8 @@ def _body(ctx, rng):
             fd = [rng.choice(alphabet) for _ in range(nrows * ncols)]
             kind = rng.choice(kinds3)
             nd = -1.0 if kind == "unit" else -9999.0
-            R.wrapper_case(nrows, ncols, fd, gen_field(rng, nrows * ncols, kind, nd), nd, None, tag=f"smp{nrows}x{ncols}")
+            R.wrapper_case(nrows, ncols, fd, gen_field(rng, nrows * ncols, kind, nd), nd, None, tag=f"smp{nrows}x{ncols}",
+                           bounds=rng.random() < 0.4)
     # 3x3 over four codes (east, south, south-east, sink): every grid in the thorough tier
     four = [code_at[(0, 1)], code_at[(1, 0)], code_at[(1, 1)], 0]
     if ctx.thorough:
@@ -508,7 +566,7 @@ def _body(ctx, rng):
         for gi, fd in enumerate(it3):
             kind = kinds3[gi % 3]
             nd = -1.0 if kind == "unit" else -9999.0
-            R.wrapper_case(3, 3, list(fd), gen_field(rng, 9, kind, nd), nd, None, tag="exh3x3")
+            R.wrapper_case(3, 3, list(fd), gen_field(rng, 9, kind, nd), nd, None, tag="exh3x3", bounds=(gi % 2 == 1))
             if gi % 40000 == 39999:
                 R.flush()
     else:
@@ -516,7 +574,7 @@ def _body(ctx, rng):
             fd = [rng.choice(four + [code_at[(0, -1)], code_at[(-1, 0)]]) for _ in range(9)]
             kind = rng.choice(kinds3)
             nd = -1.0 if kind == "unit" else -9999.0
-            R.wrapper_case(3, 3, fd, gen_field(rng, 9, kind, nd), nd, None, tag="exh3x3")
+            R.wrapper_case(3, 3, fd, gen_field(rng, 9, kind, nd), nd, None, tag="exh3x3", bounds=rng.random() < 0.4)
     R.flush()
 
     # ---- random grids
@@ -549,18 +607,21 @@ def _body(ctx, rng):
                 nd = float(rng.choice([0, 255]))
             if kind == "unit" and fd_dtype == "int16" and nd == -9999.0:
                 nd = -1.0
-            field = gen_field(rng, n, kind, nd)
             f_dtype = "float64"
-            if field is not None and all(v == int(v) and abs(v) < 2 ** 31 for v in field) and nd == nd and nd == int(nd) \
+            if kind == "narrow":
+                field, f_dtype, nd = gen_narrow(rng, n)
+            else:
+                field = gen_field(rng, n, kind, nd)
+            if kind != "narrow" and field is not None and all(v == int(v) and abs(v) < 2 ** 31 for v in field) and nd == nd and nd == int(nd) \
                     and rng.random() < 0.25:
                 f_dtype = rng.choice(["int64", "int32"])
             cap = caps_for(rng, n, fl.longest)
-            R.wrapper_case(nrows, ncols, fd, field, nd, cap, fd_dtype, f_dtype, tag=gk)
+            R.wrapper_case(nrows, ncols, fd, field, nd, cap, fd_dtype, f_dtype, tag=gk, bounds=rng.random() < 0.4)
         if it % 4 == 0:
             R.downstream_case(nrows, ncols, [v for v in fd])
         if it % 3 == 0:
             # the kernel on explicit buffers: accumulation not initialised from the field
-            fvals = gen_field(rng, n, rng.choice(FIELD_KINDS[1:]), -9999.0)
+            fvals = gen_field(rng, n, rng.choice(FIELD_KINDS[1:-1]), -9999.0)
             acc0 = rng.choice([[0.0] * n, [float(rng.randint(-4, 4)) for _ in range(n)], list(fvals)])
             cap = rng.choice([n, n, max(fl.longest, 1), max(fl.longest - 1, 1), fl.longest + 1, 1, 2, 3, n + 1])
             R.kernel_case(nrows, ncols, fd, fvals, rng.choice([-9999.0, float("nan"), -1.0]), cap, acc0, tag=gk)
@@ -573,7 +634,7 @@ def _body(ctx, rng):
         nrows, ncols = rng.randint(1, 4), rng.randint(1, 4)
         n = nrows * ncols
         fd = gen_forest(rng, nrows, ncols, code_at)
-        R.wrapper_case(nrows, ncols, fd, gen_field(rng, n, rng.choice(FIELD_KINDS), -9999.0), -9999.0,
+        R.wrapper_case(nrows, ncols, fd, gen_field(rng, n, rng.choice(FIELD_KINDS[:-1]), -9999.0), -9999.0,
                        rng.choice([0, -2, -7, -100]), tag="malformed")
         fvals = [1.0] * n
         R.kernel_case(nrows, ncols, fd, fvals, -1.0, rng.choice([0, -1, -5]), fvals, tag="malformed")
